@@ -147,8 +147,10 @@ Definition attr_skip_ser (a : list attr) : bool :=
   existsb (fun x => match x with ASkipSer => true | _ => false end) a.
 Fixpoint attr_rename (a : list attr) : option string :=
   match a with [] => None | ARename s :: _ => Some s | _ :: r => attr_rename r end.
+(* an attribute the model does not interpret (serialize_with, with, flatten, skip, ...) is recorded like a conversion
+   function, so that the declaration no longer conforms to any specification table *)
 Fixpoint attr_with (a : list attr) : option string :=
-  match a with [] => None | AWith s :: _ => Some s | _ :: r => attr_with r end.
+  match a with [] => None | AWith s :: _ => Some s | AOther s :: _ => Some ("uninterpreted attribute: " ++ s) | _ :: r => attr_with r end.
 Fixpoint attr_aliases (a : list attr) : list string :=
   match a with [] => [] | AAlias s :: r => s :: attr_aliases r | _ :: r => attr_aliases r end.
 
@@ -194,7 +196,7 @@ Fixpoint idx_fields (off : Z) (pos : Z) (l : list rfield) : list field :=
          (* serde-indexed 0.1.1: a member is optional on decode iff it carries skip_serializing_if *)
          f_opt := attr_skip_if (rf_attrs r);
          f_skip_none := attr_skip_if_is_none (rf_attrs r);
-         f_skip_ser := false; f_default := false; f_with := None |}
+         f_skip_ser := false; f_default := false; f_with := attr_with (rf_attrs r) |}
       :: idx_fields off (pos + 1) rest
   end.
 
